@@ -67,7 +67,7 @@ def cases(rng, tier, shard, nshards):
                            ncustom=0)
         lines = d.lines()
         rng.shuffle(lines)
-        yield {"k": "graph", "version": version, "lines": lines}
+        yield {"k": "graph", "version": version, "lines": lines, "seed": rng.getrandbits(32)}
 
 
 def run(case, ctx):
@@ -113,5 +113,56 @@ def run(case, ctx):
     if k == "graph":
         ctx.nontriv(lines)
         topo.check_topology(ctx, r.value, lines, version)
+        if n == 0:
+            after_mutations(ctx, r.value, lines, version, case.get("seed", 0))
     if k in ("graph", "cell") and case.get("cell", [0])[0] % 97 == 0:
         ctx.sample({"version": version, "lines": lines if len(lines) < 12 else lines[:12]})
+
+
+def after_mutations(ctx, g, lines, version, seed):
+    """the collections must also agree after removals and renames (mirrored on the text model)."""
+    import random
+    from ..spec import textmodel as T
+    from ..mon import obs as O
+    rng = random.Random(seed)
+    model = T.Model(version, lines)
+    for _ in range(rng.randint(1, 4)):
+        cand = [x for x in model.recs if x.rt in ("S", "L", "C", "E", "G", "F")]
+        if not cand:
+            return
+        x = rng.choice(cand)
+        if x.rt == "S" and rng.random() < 0.4:
+            new = "ren%d" % rng.randint(0, 99)
+            if new in model.names():
+                continue
+            rr = call(ctx, "rename", lambda: setattr(g.segment(x.pos[0]), "name", new))
+            if not rr.ok:
+                ctx.violation("legal-step-refused/rename/S/%s" % rr.cls(), x.text(), prop="C05")
+                return
+            model.rename(x, new)
+            ctx.count("renames")
+        elif x.rt == "S":
+            rr = call(ctx, "rm", g.rm, x.pos[0])
+            if not rr.ok:
+                ctx.violation("legal-step-refused/rm/S/%s" % rr.cls(), x.text(), prop="C05")
+                return
+            model.remove(x)
+            ctx.count("removals")
+        else:
+            want = topo.rkey(x, version)
+            target = None
+            for l in g.lines:
+                if l.record_type == x.rt and topo.ckey(l, version) == want:
+                    target = l
+                    break
+            if target is None:
+                return
+            rr = call(ctx, "disconnect", target.disconnect)
+            if not rr.ok:
+                ctx.violation("legal-step-refused/rm/%s/%s" % (x.rt, rr.cls()), x.text(), prop="C05")
+                return
+            model.remove(x)
+            ctx.count("removals")
+        if topo.check_neighbourhoods(ctx, g, model.text_lines(), version):
+            return
+        ctx.count("checks_after_mutation")
